@@ -51,12 +51,69 @@ def cases(tier, seed):
         D, P = DPs(tier)[int(r.integers(len(DPs(tier))))]
         out.append({'kind': 'comp', 'seed': s, 'params': {'len': int(r.integers(3, 13)), 'D': D, 'P': P,
                                                           'rec': ['ndarray', 'utpm11', 'utpmDP', 'direct'][int(r.integers(4))]}})
+    for i in range(40 if tier == 'quick' else 6000):
+        s = case_seed('C03', seed, 'twodep', i)
+        r = np.random.default_rng(s)
+        D, P = DPs(tier)[int(r.integers(len(DPs(tier))))]
+        out.append({'kind': 'twodep', 'seed': s, 'params': {'len': int(r.integers(2, 8)), 'D': D, 'P': P}})
     return out
+
+
+def _twodep(ctx, p, rng):
+    """two dependents, the second computed from the first: the sweep receives one seed per dependent, and the adjoint of a
+    node that is itself a dependent is its seed plus what its consumers send back"""
+    D, P = p['D'], p['P']
+    desc, f = progs.random_program(rng, p['len'], 'vector')
+    x = gen.series_data(rng, D, P, (3,), 'R', 'random', False, 0.4)
+    if max(f.peak(x[0, pp]) for pp in range(P)) > PEAK:
+        ctx.skip('out_of_domain:ill-conditioned (intermediate values > 1e6 cancel in the output)'); return
+    how = int(rng.integers(3))
+
+    def f2(y1, xx):
+        if how == 0:
+            return algopy.sin(y1) * xx
+        if how == 1:
+            return algopy.sum(y1 * y1) + xx[0]
+        return y1[::-1] * 2.0 - algopy.exp(0.2 * xx)
+    v = rng.normal(size=x.shape)
+    try:
+        Jv1, y1d = progs.forward_Jv(f, [x], [v])
+        Jv2, y2d = progs.forward_Jv(lambda z: f2(f(z), z), [x], [v])
+    except Exception:
+        ctx.skip('forward-unsupported:twodep'); return
+    if not (np.all(np.isfinite(Jv1)) and np.all(np.isfinite(Jv2))) or max(np.max(np.abs(Jv1)), np.max(np.abs(Jv2)), np.max(np.abs(y1d)), np.max(np.abs(y2d))) > 1e5:
+        ctx.skip('out_of_domain:ill-conditioned (|y| or |Jv| > 1e5)'); return
+    try:
+        cg = algopy.CGraph()
+        fx = algopy.Function(UTPM(x.copy()))
+        y1 = f(fx); y2 = f2(y1, fx)
+        cg.trace_off()
+        cg.independentFunctionList = [fx]; cg.dependentFunctionList = [y1, y2] if rng.random() < 0.5 else [y2, y1]
+        order = [d is y1 for d in cg.dependentFunctionList]
+    except Exception:
+        ctx.skip('not-traceable:twodep'); return
+    yb1 = rng.normal(size=y1.x.data.shape); yb2 = rng.normal(size=y2.x.data.shape)
+    try:
+        cg.pullback([UTPM((yb1 if o else yb2).copy()) for o in order])
+    except Exception as e:
+        if _refusal(e):
+            ctx.skip('no-pullback:twodep'); return
+        ctx.violation('two-dependents:raises', {'D': D, 'P': P, 'steps': [list(map(str, s_)) for s_ in desc['steps']], 'error': (str(e.__context__ or e) or repr(e))[-300:]}); return
+    xb = fx.xbar
+    lhs = progs.pairing(xb.data, v)
+    rhs = progs.pairing(yb1, Jv1) + progs.pairing(yb2, Jv2)
+    sc = progs.pairing(np.abs(xb.data), np.abs(v)) + progs.pairing(np.abs(yb1), np.abs(Jv1)) + progs.pairing(np.abs(yb2), np.abs(Jv2))
+    sc = np.maximum.accumulate(np.abs(sc), axis=0) + 1e-6 * float(np.sum(np.abs(v))) + 1e-300
+    worst = float(np.max(np.abs(lhs - rhs) / sc))
+    if not worst <= TAU:
+        ctx.violation('two-dependents:value', {'D': D, 'P': P, 'second_dependent': how, 'listed_first': 'y1' if order[0] else 'y2', 'err_over_majorant': worst,
+                                              'steps': [list(map(str, s_)) for s_ in desc['steps']]}); return
+    ctx.ok('two-dependents', ('twodep', how, order[0], D, P), noise=worst)
 
 
 def required():
     # 'refused': the tracer has no method / no pb_ for it and raises (the documented refusal), counted as skips
-    return ['single:' + p.name for p in progs.cat() if not ({'nopb', 'refused', 'fancy', 'nonunique'} & p.tags) and p.name not in ('dot:TM',)] + ['comp']
+    return ['single:' + p.name for p in progs.cat() if not ({'nopb', 'refused', 'fancy', 'nonunique'} & p.tags) and p.name not in ('dot:TM',)] + ['comp', 'two-dependents']
 
 
 NOT_TRACEABLE_OK = True
@@ -166,6 +223,8 @@ def run_case(ctx, case):
             return
         duality(ctx, 'single:' + prog.name, prog.name, prog.f, xs, rng, p['rec'], bases, (prog.name, D, P, p['rec'], p['rec_at_eval']),
                 sample={'program': prog.name, 'D': D, 'P': P, 'rec': p['rec']} if rng.random() < 0.02 else None)
+    elif case['kind'] == 'twodep':
+        return _twodep(ctx, p, rng)
     else:
         desc, f = progs.random_program(rng, p['len'], 'vector')
         x = gen.series_data(rng, D, P, (3,), 'R', 'random', False, 0.4)
